@@ -248,8 +248,8 @@ def show_name(n):
 #   * a declaration is visible in its own tag (end tags included) and in descendants only
 #   * an unbound / un-declared prefix gives the empty namespace (upstream reports a parse error)
 #   * a declaration whose value is XMLNS_URI, and any declaration for the prefixes xml / xmlns, has no
-#     effect (upstream: parse error); of several declarations of one prefix in a tag the FIRST counts
-#     (later ones are duplicate attributes)
+#     effect (upstream: parse error); of several declaration attributes with one qualified name in a tag
+#     only the FIRST is looked at (later ones are duplicate attributes), whether or not it has an effect
 # Tree-builder recovery (which tag closes which element) follows XML5 as implemented: an end tag
 # closes up to and including the nearest open element with the same expanded name, or is ignored;
 # `</>` closes the current element; nothing is created after the root element is closed or after EOF.
@@ -285,7 +285,11 @@ def lookup(env, prefix):
 def resolve_tag(env, name, attrs):
     """-> (frame, element QualName, list of (QualName, value, is_declaration) for every attribute)"""
     frame = {}
+    seen_qnames = set()
     for an, v in attrs:
+        if an in seen_qnames:
+            continue            # a later attribute with the same qualified name is a duplicate: no effect at all
+        seen_qnames.add(an)
         if is_decl(an):
             d = decl_of(an, v)
             if d is not None and d[0] not in frame:
